@@ -163,7 +163,72 @@ def case_st(draw, tier):
             "protocol_nr": draw(st.booleans())}
 
 
-SUBS = [Sub("ace", judge, strategy=case_st, quick=15000, thorough=300000, shards_thorough=64)]
+# --------------------------------------------------------------------------------------- standard ACEs
+def judge_standard(case) -> Verdict:
+    """IOS standard ACE: permit|deny <source> [log]; protocol ip, destination any."""
+    from cisco_acl import Ace
+
+    s = case
+    if s["form"] not in ("host", "bare", "wild", "any", "prefix") or s["action"] not in ("permit", "deny"):
+        raise Invalid()
+    b, w = s["b"] & R.ALL1, s["w"] & R.ALL1
+    if len(R.nc_bits(w)) > 8 or (s["form"] == "prefix" and not R.is_contiguous(w)):
+        raise Invalid()
+    addr = {"host": f"host {R.int2ip(b)}", "bare": R.int2ip(b), "wild": f"{R.int2ip(b)} {R.int2ip(w)}", "any": "any",
+            "prefix": f"{R.int2ip(b)}/{32 - bin(w).count('1')}"}[s["form"]]
+    pair = {"host": (b, 0), "bare": (b, 0), "any": (0, R.ALL1)}.get(s["form"], R.mk_pair(b, w))
+    logs = [s["log"]] if s.get("log") else []
+    toks = [str(s["seq"])] if s.get("seq") else []
+    toks += [s["action"], addr] + logs
+    gap = "  " if s.get("noise") else " "
+    text = gap.join(toks) + (" " if s.get("noise") else "")
+    v = Verdict()
+    v.label(f"standard-{s['form']}")
+    v.nt(s["form"] in ("bare", "wild", "prefix") or bool(s.get("seq")))
+    try:
+        ace = Ace(text, platform="ios")
+    except (ValueError, TypeError) as ex:
+        v.fail("standard:valid-line-rejected", {"text": text, "error": str(ex)[:200]})
+        return v
+    if ace.type != "standard":
+        v.fail("standard:type", {"text": text, "type": ace.type})
+    if ace.action != s["action"] or ace.sequence != (s.get("seq") or 0) or ace.protocol.number != 0:
+        v.fail("standard:action-sequence-protocol", {"text": text, "got": [ace.action, ace.sequence, ace.protocol.number]})
+    want_wc = f"{R.int2ip(pair[0])} {R.int2ip(pair[1])}"
+    if ace.srcaddr.wildcard != want_wc:
+        v.fail("standard:source-address", {"text": text, "got": ace.srcaddr.wildcard, "want": want_wc})
+    elif sorted((int(n.network_address), n.prefixlen) for n in ace.srcaddr.ipnets()) != R.pair_prefixes(pair):
+        v.fail("standard:source-address-set", {"text": text})
+    if ace.dstaddr.wildcard != "0.0.0.0 255.255.255.255" or ace.srcport.line or ace.dstport.line:
+        v.fail("standard:destination-or-ports", {"text": text, "dst": ace.dstaddr.line})
+    if ace.option.logs != logs or ace.option.flags:
+        v.fail("standard:options", {"text": text, "got": ace.option.line})
+    if v.fails:
+        return v
+    out = ace.line
+    try:
+        again = R.read_ace(out, "ios", G.names_fn("ios"), G.lib_proto_any(), strict=True, standard=True)
+    except R.RefError as ex:
+        v.fail("standard:render-not-valid-syntax", {"text": text, "rendered": out, "why": str(ex)[:200]})
+        return v
+    if again.src.pair != pair or again.action != s["action"] or again.seq != (s.get("seq") or 0) or again.options != tuple(logs):
+        v.fail("standard:render-meaning-changed", {"text": text, "rendered": out})
+    return v
+
+
+@st.composite
+def standard_st(draw, tier):
+    form = draw(st.sampled_from(["host", "bare", "wild", "wild", "any", "prefix"]))
+    w = draw(G.wildmask_st(4)) if form == "wild" else (1 << draw(st.integers(0, 32))) - 1
+    return {"form": form, "b": draw(G.base_st()), "w": w, "action": draw(st.sampled_from(["permit", "deny"])),
+            "seq": draw(st.sampled_from([0, 0, 10, 4294967295])), "log": draw(st.sampled_from(["", "", "log", "log-input"])),
+            "noise": draw(st.booleans())}
+
+
+SUBS = [
+    Sub("ace", judge, strategy=case_st, quick=15000, thorough=300000, shards_thorough=64),
+    Sub("standard", judge_standard, strategy=standard_st, quick=2000, thorough=40000),
+]
 
 MANIFEST = {
     "technique": "property-based differential testing: Hypothesis-generated ACE records in every spelling, library fields and re-rendered text compared with an independent reference reader (refsem)",
